@@ -986,6 +986,8 @@ pub struct ThOpsCfg {
     pub canary: bool,
     pub ring_polls: usize,
     pub pool: (u16, u32),
+    /// The ring thread drops the Ring after its polls, while the tasks still run.
+    pub ring_drops: bool,
 }
 
 struct ThOpsShared {
@@ -1037,7 +1039,8 @@ pub fn thops(cfg: ThOpsCfg, bound: u32) -> ThHarness {
         cfg.c0_cq,
         if cfg.canary { "-canary" } else { "" }
     );
-    let describe = json!({"engine": "schx", "tasks": cfg.tasks.iter().map(|(k, s, d)| format!("{k:?} script {s:?} drop_after {d:?}")).collect::<Vec<_>>(), "sq": cfg.sq, "cq": cfg.cq, "c0_cq": cfg.c0_cq, "canary_scribbling": cfg.canary, "ring_thread_polls": cfg.ring_polls, "preemption_bound": bound});
+    let describe = json!({"engine": "schx", "tasks": cfg.tasks.iter().map(|(k, s, d)| format!("{k:?} script {s:?} drop_after {d:?}")).collect::<Vec<_>>(), "sq": cfg.sq, "cq": cfg.cq, "c0_cq": cfg.c0_cq, "canary_scribbling": cfg.canary, "ring_thread_polls": cfg.ring_polls, "ring_thread_drops_the_ring": cfg.ring_drops, "preemption_bound": bound});
+    let name = if cfg.ring_drops { format!("{name}-ringdrop") } else { name };
     let cfg = Arc::new(cfg);
     ThHarness {
         name,
@@ -1049,6 +1052,10 @@ pub fn thops(cfg: ThOpsCfg, bound: u32) -> ThHarness {
             let cfg = cfg.clone();
             let prop = cfg.prop;
             simk::reset(simk::SetupPlan { c0_cq: cfg.c0_cq, ..Default::default() });
+            if cfg.ring_drops {
+                // A notification still outstanding when the Ring goes away can never be reclaimed by a10.
+                simk::with(|k| k.zc_cancel_notif_immediate = true);
+            }
             talloc::set_on_free(Some(simk::on_free));
             let need_pool = cfg.tasks.iter().any(|(k, _, _)| k.needs_pool());
             let (mut ring, sq, fd, pool) = talloc::track(|| {
@@ -1157,6 +1164,7 @@ pub fn thops(cfg: ThOpsCfg, bound: u32) -> ThHarness {
             {
                 let shared = shared.clone();
                 let max_polls = cfg.ring_polls;
+                let ring_drops = cfg.ring_drops;
                 bodies.push((
                     "ring".into(),
                     Box::new(move || {
@@ -1172,14 +1180,22 @@ pub fn thops(cfg: ThOpsCfg, bound: u32) -> ThHarness {
                             let head = simk::with(|k| k.rings[0].cq_head());
                             shared.lock().unwrap().0.events.push((0, format!("ring-poll-end:{head}"), crate::waker::tick()));
                         }
-                        shared.lock().unwrap().0.ring = Some(ring);
+                        if ring_drops {
+                            shared.lock().unwrap().0.events.push((0, "ring-drop-begin".into(), crate::waker::tick()));
+                            talloc::track(|| drop(ring));
+                            shared.lock().unwrap().0.events.push((0, "ring-dropped".into(), crate::waker::tick()));
+                        } else {
+                            shared.lock().unwrap().0.ring = Some(ring);
+                        }
                     }),
                 ));
             }
             // Kernel actors: per task, play its script on the request in flight for it.
             let mut actors = Vec::new();
             let progress: Arc<Mutex<Vec<usize>>> = Arc::new(Mutex::new(vec![0; nt]));
+            let last_kernel_step_all = Arc::new(std::sync::atomic::AtomicU64::new(0));
             for t in 0..nt {
+                let last_kernel_step = last_kernel_step_all.clone();
                 let script = cfg.tasks[t].1.clone();
                 let (uds1, uds2) = (uds.clone(), uds.clone());
                 let (p1, p2) = (progress.clone(), progress.clone());
@@ -1210,6 +1226,7 @@ pub fn thops(cfg: ThOpsCfg, bound: u32) -> ThHarness {
                             }
                         });
                         p2.lock().unwrap()[t] += 1;
+                        last_kernel_step.store(crate::waker::tick(), std::sync::atomic::Ordering::SeqCst);
                     }),
                 });
             }
@@ -1242,6 +1259,64 @@ pub fn thops(cfg: ThOpsCfg, bound: u32) -> ThHarness {
                 let mut v = sim_violations(prop);
                 let mut g = shared.lock().unwrap();
                 let s = &mut g.0;
+                if cfgj.ring_drops {
+                    // The Ring is gone. Judged: memory safety (simulated kernel's footprints, double frees),
+                    // that nobody observed anything the kernel did not post for it, and -- when no task
+                    // polled after the Ring was dropped -- that everything is reclaimed.
+                    let dropped_at = s.events.iter().find(|(_, e, _)| e == "ring-drop-begin").map(|e| e.2).unwrap_or(0);
+                    // (A poll that was still running when the Ring went away counts: it may submit afterwards.)
+                    let polled_after = s.events.iter().any(|(th, e, c)| *th != 0 && e.starts_with("task-poll-end") && *c > dropped_at);
+                    for t in 0..nt {
+                        if cfgj.tasks[t].2.is_some() {
+                            continue;
+                        }
+                        let Some(ud) = uds.lock().unwrap()[t] else { continue };
+                        let kind = cfgj.tasks[t].0;
+                        let outs: Vec<simk::OutRec> = simk::with(|k| k.reqs_by_ud(ud).into_iter().flat_map(|ser| k.req(ser).outs.clone()).collect());
+                        let rendered: Vec<String> = outs.iter().filter(|o| o.res >= 0 || (o.res != -libc::EINTR && o.res != -libc::ECANCELED)).map(|o| crate::opsworld::OpsWorld::render(kind, t, o)).collect();
+                        for g in s.seen[t].iter() {
+                            if let Seen::Ready(val) = g {
+                                if !rendered.contains(val) {
+                                    v.push(Violation::new(prop, &format!("wrong-result/{kind:?}/threads"), &format!("task {t} ({kind:?}) observed {val}, the kernel posted for it only {rendered:?}")));
+                                }
+                            }
+                        }
+                    }
+                    if !v.is_empty() {
+                        std::mem::forget(std::mem::take(&mut s.ops));
+                        std::mem::forget(canary);
+                        std::mem::forget(pool);
+                        simk::shutdown();
+                        talloc::disarm();
+                        return v;
+                    }
+                    talloc::track(|| {
+                        for o in s.ops.iter_mut() {
+                            if let Some(op) = o.as_mut() {
+                                op.held.borrow_mut().clear();
+                                op.bufs.borrow_mut().clear();
+                            }
+                        }
+                        s.ops.clear();
+                        drop(canary);
+                        drop(pool);
+                        drop(unsafe { Box::from_raw(std::ptr::from_ref(fd).cast_mut()) });
+                        drop(sq);
+                    });
+                    v.extend(sim_violations(prop));
+                    simk::shutdown();
+                    let rep = talloc::disarm();
+                    if rep.double_frees > 0 {
+                        v.push(Violation::new("C06", "double-free", "operation state freed twice"));
+                    }
+                    // Completions the kernel posts after the Ring is gone are never seen by a10 either.
+                    let kernel_after = last_kernel_step_all.load(std::sync::atomic::Ordering::SeqCst) > dropped_at;
+                    if !rep.leaked.is_empty() && !polled_after && !kernel_after && v.is_empty() {
+                        let total: usize = rep.leaked.iter().map(|b| b.size).sum();
+                        v.push(Violation::new("C12", "leak/threads-ring-dropped", &format!("{} block(s), {total} bytes still allocated after the Ring (on its own thread) and then everything else was dropped; no task polled after the Ring was gone", rep.leaked.len())));
+                    }
+                    return v;
+                }
                 let mut ring = s.ring.take().unwrap();
                 // Quiescence: the kernel finishes its scripts, everything is polled to the end.
                 let mut bail = !v.is_empty();
